@@ -42,9 +42,18 @@ type mapBuilder struct {
 	kvGenerators    [2]BuilderGenerator
 	container       reflect.Value
 	key             reflect.Value
+	pendingKey      *mapPendingKey
 	builderIndex    int
 	nextGenerator   BuilderGenerator
 	nextStoreMethod func(*mapBuilder, reflect.Value)
+}
+
+// A map key given as a forward local reference is not known until its marker
+// has been built. Entries under such a key wait here until it is resolved.
+type mapPendingKey struct {
+	key      reflect.Value
+	resolved bool
+	waiting  []func()
 }
 
 func newMapBuilderGenerator(getBuilderGeneratorForType BuilderGeneratorGetter, mapType reflect.Type) BuilderGenerator {
@@ -71,10 +80,26 @@ func (_this *mapBuilder) String() string {
 
 func (_this *mapBuilder) storeKey(value reflect.Value) {
 	_this.key = value
+	_this.pendingKey = nil
 }
 
 func (_this *mapBuilder) storeValue(value reflect.Value) {
-	_this.container.SetMapIndex(_this.key, value)
+	_this.entrySetter()(value)
+}
+
+// Returns a function that stores a value under the current key, waiting for
+// the key if it is a local reference that hasn't been resolved yet.
+func (_this *mapBuilder) entrySetter() func(value reflect.Value) {
+	container := _this.container
+	key := _this.key
+	pending := _this.pendingKey
+	return func(value reflect.Value) {
+		if pending != nil && !pending.resolved {
+			pending.waiting = append(pending.waiting, func() { container.SetMapIndex(key, value) })
+			return
+		}
+		container.SetMapIndex(key, value)
+	}
 }
 
 var mapBuilderKVStoreMethods = []func(*mapBuilder, reflect.Value){
@@ -241,17 +266,34 @@ func (_this *mapBuilder) BuildBeginMapContents(ctx *Context) {
 }
 
 func (_this *mapBuilder) BuildFromLocalReference(ctx *Context, id []byte) {
+	if _this.builderIndex == kvBuilderKey {
+		// The referenced object is this entry's key.
+		pending := &mapPendingKey{key: _this.newElem()}
+		_this.key = pending.key
+		_this.pendingKey = pending
+		_this.swapKeyValue()
+		ctx.NotifyLocalReference(id, func(object reflect.Value) {
+			setAnythingFromAnything(object, pending.key)
+			pending.resolved = true
+			for _, setEntry := range pending.waiting {
+				setEntry()
+			}
+			pending.waiting = nil
+		})
+		return
+	}
+
 	container := _this.container
-	key := _this.key
+	setEntry := _this.entrySetter()
 	tempValue := _this.newElem()
 	_this.swapKeyValue()
 	ctx.NotifyLocalReference(id, func(object reflect.Value) {
 		if container.Type().Elem().Kind() == reflect.Interface || object.Type() == container.Type().Elem() {
 			// In case of self-referencing pointers, we need to pass the original container, not a copy.
-			container.SetMapIndex(key, object)
+			setEntry(object)
 		} else {
 			setAnythingFromAnything(object, tempValue)
-			container.SetMapIndex(key, tempValue)
+			setEntry(tempValue)
 		}
 	})
 }
